@@ -308,7 +308,12 @@ class LoopParser(SubParser):
             return True
         code_gen.minus_equals(LoopVar.COUNTER, 1)
         if self._index_var is not None:
+            # Only on the way to another pass: after the last one, the
+            # variable keeps the value it had during it.
+            code_gen.test_op(Operator.GT, LoopVar.COUNTER, 0)
+            marker = code_gen.if_true_start()
             code_gen.plus_equals(self._index_var, LoopVar.INCR)
+            code_gen.if_end(marker)
         return True
 
     @property
